@@ -37,6 +37,8 @@ PRELUDE_SETUP = [
     "file f.txt = <<EOF\nline 1\nline 2\nEOF", 'dir d = { file a.txt = "x"\n dir sub = { file b.txt } }', 'copy data.txt',
     # strings that are built, two definitions down and below a reference that is not the last one, from a list / a path
     'def string DEEP0 = "@[L]@"', 'def string DEEP = "@[DEEP0]@@[S]@"', 'def string DEEPP0 = @[P]@', 'def string DEEPP = "@[DEEPP0]@-@[N]@"',
+    # path symbols of every kind of relativity (as destinations most of them are illegal: a VALIDATION_ERROR, with a message about each kind)
+    'def path PABS = /nonexisting-verif-abs-dir', 'def path PHOME = -rel-home data.txt', 'def path PRES = -rel-result stdout', 'def path PABS2 = @[PABS]@/sub',
     # texts whose last line has no line ending
     "file nonl.txt = 'line'", 'file nonl2.txt = -contents-of -rel-act f.txt -transformed-by strip -trailing-new-lines',
 ]
@@ -125,6 +127,7 @@ REPL = ['(', ')', '=', ':', '!', '&&', '||', '|', "'", '"', '@[', ']@', '@[S]@',
         # integer expressions that try to end the interpreter
         'exit(0)', 'exit(3)', 'quit()', "__import__('sys').exit(7)",
         # values that depend on the directory structure: they can only be validated after the sandbox exists (or after the home directories are known)
+        '@[PABS]@', '@[PHOME]@', '@[PRES]@', '@[PABS2]@/x',
         '"@[EXACTLY_ACT]@("', '"@[EXACTLY_TMP]@["', '@[EXACTLY_HOME]@', '"@[EXACTLY_HOME]@["', '"@[P]@("', '@[EXACTLY_RESULT]@/x']
 
 
@@ -261,12 +264,17 @@ RAW = ['[act]\n% atc\n' + '\x0c\n' * 3000, '[act]\n% atc a\n' + ' \t \n' * 5000,
        '[assert]\n`a\nmulti-line\ndescription`\n# only a comment follows',
        '[assert]\n\xa0', '[assert]\n\x0c', '[setup]\ndef string A = 1\n\x0b', '[act]\n% atc\n[cleanup]\n \x1c', '[act]\nprog \xa0', '[act]\n\xa0\n', '[setup]\n\u2028', '[setup]\n\x85\n[act]\n',
        '', '\n\n\n', '\x00\x01\x02', '﻿[act]\n% atc\n', '[act]\n' + 'x' * 100000, '\r\n[act]\r\n% atc\r\n', '[act]\n% atc\n[assert]\nexit-code == 0' + '\n' * 5000,
-       '[setup]\n' + 'def string S%d = x\n' * 3, '#' * 1000] + [
+       '[setup]\n' + 'def string S%d = x\n' * 3, '#' * 1000,
+       # the header of an unknown phase directly followed by another header (an empty unknown phase is unknown all the same)
+       '[nophase]\n[act]\n% atc\n', '[setup]\n[before-asert]\n[assert]\nexit-code == 0\n', '[act]\n% atc\n[assert]\n[clean-up]\n[cleanup]\n', '[x]\n[y]\n[setup]\n'] + [
        # a header-like line preceded by white space that is not space / tab (the header syntax allows only those two before `[`)
        tmpl % (ws + hd) for ws in ('\x0c', '\x0b', '\xa0', '\u2003', '\x1c', '\u3000', ' \x0c ', '\t\xa0')
        for hd in ('[assert]', '[no-such-phase]', '[act]')
        for tmpl in ('[setup]\n%s\n', '[act]\n%% atc\n[assert]\n%s\nexit-code == 0\n', '[act]\n%s\n', '%s\n', '[cleanup]\n%s')] + [
         '[act]\n\\', '[setup]\nfile f = <<\n', '[setup]\nfile f = <<EOF', "[setup]\ndef string X = 'a\nb'\n"]
+
+
+UNKNOWN_PHASE_RAW = {'[nophase]\n[act]\n% atc\n', '[setup]\n[before-asert]\n[assert]\nexit-code == 0\n', '[act]\n% atc\n[assert]\n[clean-up]\n[cleanup]\n', '[x]\n[y]\n[setup]\n'}
 
 
 def _world(w, seam):
@@ -342,6 +350,8 @@ def run(case) -> Result:
         res.n += 1
         res.nontrivial += 1
         errs = judge(o, RAW[case[1]])
+        if RAW[case[1]] in UNKNOWN_PHASE_RAW and (o.ident != 'SYNTAX_ERROR' or o.rc != 65):
+            errs.append('the file names a phase that does not exist: expected SYNTAX_ERROR / 65, got %s / %s' % (o.ident, o.rc))
         res.outcomes[('raw', o.ident)] += 1
         if errs:
             hit = kf.classify_c18(RAW[case[1]], o.rc, o.out, o.err)
